@@ -404,7 +404,7 @@ class EnvelopeSearchCriteria(SearchCriteria):
             return any(self._in(self.value, str(from_))
                        for from_ in envelope.from_)
         elif self.key == b'SUBJECT':
-            if not envelope.subject:
+            if envelope.subject is None:
                 return False
             return self._in(self.value, str(envelope.subject))
         elif self.key == b'TO':
